@@ -1,0 +1,22 @@
+//go:build verif
+
+package replication
+
+import "sync"
+
+// managerMutex (verification builds only) is a lock built on a channel: a goroutine waiting for it is
+// "durably blocked" for testing/synctest, which a goroutine waiting for a sync.Mutex is not, so a
+// deterministic simulator can keep scheduling the holder's dependencies while others wait for the lock.
+type managerMutex struct {
+	once sync.Once
+	ch   chan struct{}
+}
+
+func (m *managerMutex) init() { m.once.Do(func() { m.ch = make(chan struct{}, 1) }) }
+
+func (m *managerMutex) Lock() {
+	m.init()
+	m.ch <- struct{}{}
+}
+
+func (m *managerMutex) Unlock() { <-m.ch }
